@@ -564,6 +564,12 @@ func (ig *ingest) exactStaleness(ev *Eval, rule string, H *Term, allowed []strin
 	}
 	seenLeaf := map[string]bool{}
 	for _, f := range flat {
+		// a (possibly stale) snapshot of the current view counts as the current view here
+		ua := make([]*Term, len(f.Args))
+		for i, t := range f.Args {
+			ua[i] = unsnap(t)
+		}
+		f = (&Atom{Pred: f.Pred, Args: ua, Neg: f.Neg, Site: f.Site}).Subst(nil)
 		key := f.Key()
 		if seenLeaf[key] {
 			continue
@@ -605,7 +611,8 @@ func (ig *ingest) exactStaleness(ev *Eval, rule string, H *Term, allowed []strin
 		allowedCond = map[string]bool{}
 	}
 	for _, ct := range ev.E.PathConds() {
-		ct.Walk(func(t *Term) {
+		// a comparison with a snapshot of the current view is a comparison with the current view
+		unsnap(ct).Walk(func(t *Term) {
 			if t.Op == "bin" && len(t.Args) == 2 && ((t.Args[0].Key() == vk && t.Args[1].Key() == sk) || (t.Args[0].Key() == sk && t.Args[1].Key() == vk)) {
 				if !allowedCond[t.Key()] {
 					extra = append(extra, "condition "+PP(t))
@@ -795,6 +802,28 @@ func runProof(a *Analyzer, r *Results) {
 
 
 // unfreeze removes the pre(...) wrappers (values read before a call that may write them).
+// unsnap strips the snapshot wrappers (pre:<def>!snap) and keeps the other frozen reads.
+func unsnap(t *Term) *Term {
+	if t.Op == "pre" && strings.HasSuffix(t.Name, "!snap") && len(t.Args) == 1 {
+		return unsnap(t.Args[0])
+	}
+	if len(t.Args) == 0 {
+		return t
+	}
+	changed := false
+	na := make([]*Term, len(t.Args))
+	for i, a := range t.Args {
+		na[i] = unsnap(a)
+		if na[i] != a {
+			changed = true
+		}
+	}
+	if !changed {
+		return t
+	}
+	return rebuild(t, na)
+}
+
 func unfreeze(t *Term) *Term {
 	if t.Op == "pre" && len(t.Args) == 1 {
 		return unfreeze(t.Args[0])
